@@ -71,6 +71,7 @@ def gen_cases(tier, seed):
     for oc in OUTCOMES[:4]:
         for delay_at in ('plum_to_kiwi_future', 'on_done', None):
             cases.append({'adapter': 'comm_thread', 'depth': 1, 'order': [0], 'outcome': oc, 'thread': True, 'delay_at': delay_at})
+        cases.append({'adapter': 'comm_thread', 'via': 'schedule_rpc', 'depth': 1, 'order': [0], 'outcome': oc, 'thread': True, 'delay_at': None})
     for scen in ('run', 'run-twice', 'cancel-run', 'raise', 'raise-run', 'args', 'cancel-twice-run', 'cancel-inside-run', 'cancel-inside-raise', 'run-inside-run', 'run-inside-raise'):
         cases.append({'adapter': 'action', 'scenario': scen, 'depth': 1, 'order': [], 'outcome': ['value', 1], 'thread': False})
     return cases
@@ -126,6 +127,27 @@ def run_comm_thread(case):
 
     conv = communications.convert_to_comm(handler, loop)
     delay_at = case.get('delay_at')
+    via = case.get('via', 'convert_to_comm')
+    if via == 'schedule_rpc':
+        # the other adapter between a communicator thread and the loop: Process._schedule_rpc (what message_receive uses)
+        proc = plumpy.Process(loop=loop)
+
+        def callback():
+            if oc[0] == 'exc':
+                raise AdapterError(oc[1])
+            return oc[1]
+
+        conv = lambda _comm, _msg: proc._schedule_rpc(callback)  # noqa: E731
+    # the sender waits until the loop thread is really blocked in its selector
+    blocked = threading.Event()
+    orig_select = loop._selector.select
+
+    def select(timeout=None):
+        if timeout is None:
+            blocked.set()
+        return orig_select(timeout)
+
+    loop._selector.select = select
 
     def tracer(frame, event, arg):
         if event == 'call' and frame.f_code.co_name == delay_at:
@@ -134,7 +156,8 @@ def run_comm_thread(case):
         return None
 
     def sender():
-        time.sleep(0.03)  # the loop is idle by now
+        out['loop_seen_idle'] = blocked.wait(20)
+        time.sleep(0.01)
         if delay_at:
             sys.settrace(tracer)
         try:
@@ -157,14 +180,16 @@ def run_comm_thread(case):
         asyncio.set_event_loop(None)
     viol = []
     exp = _expected(oc)
+    if not out.get('loop_seen_idle'):
+        return {'viol': [], 'obs': obs, 'inconclusive': 'loop-never-idle', 'key': case, 'nontrivial': False}
     if not out.get('in_time'):
-        viol.append(V('adapter-pending', 'adapter-pending:comm_thread:%s' % (delay_at or 'nodelay'),
-                      'a subscriber converted by convert_to_comm was called from another thread while the loop was idle: its reply future was still pending '
-                      'after 20 s (delay injected at %s)' % delay_at))
+        viol.append(V('adapter-pending', 'adapter-pending:comm_thread:%s:%s' % (via, delay_at or 'nodelay'),
+                      '%s was called from another thread while the loop was idle: its reply future was still pending '
+                      'after 20 s (delay injected at %s)' % (via, delay_at)))
     elif not _same(out['desc'], exp, 'schedule_rpc'):
         viol.append(V('adapter-outcome', 'adapter-outcome:comm_thread:%s' % oc[0], 'reply future ended %r, the handler produced %r' % (out['desc'], exp)))
     return {'viol': viol, 'obs': obs, 'key': case, 'nontrivial': True,
-            'sample': {'adapter': 'convert_to_comm from a communicator thread', 'delay_at': delay_at, 'outcome': oc, 'reply': [out.get('desc', ['?'])[0]]}}
+            'sample': {'adapter': '%s from a communicator thread, loop idle' % via, 'delay_at': delay_at, 'outcome': oc, 'reply': [out.get('desc', ['?'])[0]]}}
 
 
 def run_case(case):
